@@ -14,6 +14,8 @@ def construct(Y, ctor):
     if kind == "split":
         from urllib.parse import SplitResult
         return Y.URL(SplitResult(*ctor[1]), encoded=True)
+    if kind == "build_enc":
+        return Y.URL.build(encoded=True, **ctor[1])
     if kind == "self":
         return Y.URL(Y.URL(ctor[1]))
     if kind == "build":
@@ -139,7 +141,7 @@ def build_kwargs(txt, hosts=None, schemes=None):
     hosts = hosts if hosts is not None else gen.host_text()
     path = st.one_of(st.just(""), st.just("/"), txt.map(lambda s: "/" + s))
     return st.fixed_dictionaries(
-        {"scheme": schemes if schemes is not None else gen.scheme(mixed_case=False),
+        {"scheme": schemes if schemes is not None else gen.scheme(mixed_case=True),
          "host": hosts.map(lambda h: h[1:-1] if h.startswith("[") else h)},
         optional={
             "user": st.one_of(st.none(), txt), "password": st.one_of(st.none(), txt), "port": gen.port(),
@@ -161,4 +163,10 @@ def program(txt=None, hosts=None, max_ops=3, encoded_ctor=False, with_join=True,
         ctors.append(gen.url_string(txt, hosts=hosts, schemes=schemes).map(lambda s: ["enc", s]))
         ctors.append(st.tuples(gen.scheme(mixed_case=False), st.one_of(st.just(""), gen.host_text(idn=False)), txt.map(lambda s: "/" + s), txt, txt).map(lambda t: ["split", list(t)]))
         ctors.append(gen.url_string(txt, hosts=hosts, schemes=schemes).map(lambda s: ["self", s]))
+        enc_txt = st.sampled_from(["", "a", "a%20b", "%41", "x/y", "p%3Aq"])
+        ctors.append(st.fixed_dictionaries({"scheme": gen.scheme(mixed_case=False), "host": st.sampled_from(["h.example", "[::1]", "[fe80::1%25eth0]", "[v1.x]", "127.0.0.1", "H.Example", ""])},
+                                           optional={"user": st.one_of(st.none(), enc_txt), "password": st.one_of(st.none(), enc_txt), "port": gen.port(), "path": enc_txt.map(lambda s: "/" + s),
+                                                     "query_string": enc_txt, "fragment": enc_txt}).map(lambda kw: ["build_enc", kw]))
+        ctors.append(st.tuples(gen.scheme(mixed_case=False), st.sampled_from(["h:81", "u:p@[::1]:8080", "[v1.x]", ":81", "u@", "H", "h:080"]), enc_txt.map(lambda s: "/" + s)).map(
+            lambda t: ["build_enc", {"scheme": t[0], "authority": t[1], "path": t[2]}]))
     return st.fixed_dictionaries({"ctor": st.one_of(*ctors), "ops": st.lists(op(txt, hosts, with_join), max_size=max_ops)})
